@@ -1440,3 +1440,64 @@ fn k_stroke_dash_guards() {
     kani::cover!(n == 2 && total.is_nan());
     kani::cover!(n == 3 && total < 0.);
 }
+
+// ------------------------------------------------------------------ stroke() as a driver (C07 #7, C02 #6, C11)
+pub static mut SD: [u8; 6] = [0; 6];
+pub static mut SD_N: usize = 0;
+pub static mut SD_TOL: u32 = 0;
+pub static mut SD_DASH: (usize, u32) = (0, 0);
+fn sd_push(k: u8) { unsafe { if SD_N < 6 { SD[SD_N] = k; } SD_N += 1; } }
+fn scaled_tolerance_rec(x: f32, _t: &Transform) -> f32 { sd_push(1); unsafe { SD_TOL = x.to_bits(); } 0.25 }
+fn flatten_rec(p: &Path, tolerance: f32) -> Path { sd_push(2); assert!(tolerance == 0.25, "flatten uses the transform-scaled tolerance"); Path { ops: vec![PathOp::MoveTo(Point::new(2., 2.))], winding: p.winding } }
+fn dash_path_rec(p: &Path, dash_array: &[f32], dash_offset: f32) -> Path {
+    sd_push(3);
+    unsafe { SD_DASH = (dash_array.len(), dash_offset.to_bits()); }
+    assert!(p.ops.len() == 1 && matches!(p.ops[0], PathOp::MoveTo(_)), "dashing works on the flattened path");
+    Path { ops: vec![PathOp::MoveTo(Point::new(3., 3.)), PathOp::Close], winding: Winding::NonZero }
+}
+fn stroke_to_path_rec(p: &Path, _style: &StrokeStyle) -> Path {
+    sd_push(4);
+    unsafe { SD_DASH.0 = SD_DASH.0 * 10 + p.ops.len(); }
+    Path { ops: vec![PathOp::MoveTo(Point::new(4., 4.)), PathOp::Close, PathOp::Close], winding: Winding::NonZero }
+}
+fn fill_rec2<Backing: AsRef<[u32]> + AsMut<[u32]>>(dt: &mut DrawTarget<Backing>, path: &Path, src: &Source, options: &DrawOptions) {
+    sd_push(5);
+    fill_rec(dt, path, src, options);
+}
+
+// @ob id=K.stroke_driver props=C07,C02,C11 kind=complete unwind_complete=yes tier=quick timeout=600 fns=DrawTarget::stroke
+// @+ desc="stroke(): flatten with the transform-scaled tolerance (base 0.1), then dash_path if and only if the dash array is non-empty (an empty dash array never reaches dash_path) with the style's array and offset, then stroke_to_path on that result, then exactly one fill of the stroked outline with the caller's source and options; callees replaced by recorders"
+#[kani::proof]
+#[kani::unwind(10)]
+#[kani::stub(scaled_tolerance, scaled_tolerance_rec)]
+#[kani::stub(crate::path_builder::Path::flatten, flatten_rec)]
+#[kani::stub(crate::dash::dash_path, dash_path_rec)]
+#[kani::stub(crate::stroke::stroke_to_path, stroke_to_path_rec)]
+#[kani::stub(DrawTarget::fill, fill_rec2)]
+fn k_stroke_driver() {
+    let mut dt = DrawTarget::new(CW, CH);
+    let dashed: bool = kani::any();
+    let off: f32 = kani::any();
+    let style = StrokeStyle { width: kani::any(), cap: LineCap::Butt, join: LineJoin::Bevel, miter_limit: kani::any(),
+                              dash_array: if dashed { vec![1.0, 2.0] } else { Vec::new() }, dash_offset: off };
+    let path = Path { ops: vec![PathOp::LineTo(Point::new(1., 1.))], winding: Winding::EvenOdd };
+    let alpha: f32 = kani::any();
+    let opts = DrawOptions { blend_mode: BlendMode::Lighten, alpha, antialias: AntialiasMode::None };
+    unsafe { SD_N = 0; SD_DASH = (0, 0); }
+    comp_reset();
+    dt.stroke(&path, &Source::Solid(SolidSource { r: 9, g: 8, b: 7, a: 255 }), &style, &opts);
+    let n = unsafe { SD_N };
+    let d = unsafe { SD };
+    assert!(unsafe { SD_TOL } == 0.1f32.to_bits(), "base tolerance 0.1, scaled by the transform");
+    if dashed {
+        assert!(n == 5 && d[0] == 1 && d[1] == 2 && d[2] == 3 && d[3] == 4 && d[4] == 5, "tolerance, flatten, dash, stroke, fill");
+        assert!(unsafe { SD_DASH } == (2 * 10 + 2, off.to_bits()), "dash_path gets the style's array and offset; stroke_to_path gets the dashed path");
+    } else {
+        assert!(n == 4 && d[0] == 1 && d[1] == 2 && d[2] == 4 && d[3] == 5, "no dash array: dash_path is not reached");
+        assert!(unsafe { SD_DASH.0 } == 1, "stroke_to_path gets the flattened path");
+    }
+    let f = unsafe { &FILL };
+    assert!(f.n == 1 && f.ops == 3 && f.blend == BlendMode::Lighten && f.alpha_bits == alpha.to_bits() && f.aa == AntialiasMode::None && f.solid == 0xff090807, "one fill of the stroked outline with the caller's source and options");
+    kani::cover!(dashed);
+    kani::cover!(!dashed);
+}
